@@ -22,7 +22,7 @@ def plan(tier, seed):
     shards = [{"kind": "table", "part": i, "parts": 4} for i in range(4)]
     shards.append({"kind": "inline"})
     for i in range(6 if q else 16):
-        shards.append({"kind": "rand", "n": 300 if q else 9000})
+        shards.append({"kind": "rand", "n": 300 if q else 2500})
     for i in range(2 if q else 4):
         shards.append({"kind": "exh", "max_nodes": 4 if q else 5, "part": i, "parts": 2 if q else 4})
     return {
